@@ -237,7 +237,7 @@ def parse_expr(s):
 
 
 KEYWORDS = ('spec', 'define', 'axiom', 'lemma', 'func', 'requires', 'ensures', 'assigns', 'allocates',
-            'loop', 'invariant', 'decreases', 'flag', 'ghostvar', 'call', 'import', 'at', 'property', 'end', 'step')
+            'loop', 'invariant', 'decreases', 'flag', 'ghostvar', 'call', 'import', 'at', 'property', 'end', 'step', 'send', 'guarded', 'uses', 'recv')
 
 
 def _label(s):
@@ -334,6 +334,22 @@ def parse_contract_text(text, fname='?'):
                 lab, r = _label(m.group(2))
                 cur.setdefault('calls', []).append((m.group(1), lab, parse_expr(r), r))
                 curloop = None
+            elif kw == 'send':
+                # send <channel variable> [label] expr   -- assertion on every message sent on that channel (msg = the message)
+                m = re.match(r'\s*(\S+)\s+(.*)$', rest, re.S)
+                lab, r = _label(m.group(2))
+                cur.setdefault('sends', []).append((m.group(1), lab, parse_expr(r), r))
+                curloop = None
+            elif kw == 'uses':
+                cur.setdefault('uses', []).extend(x.strip() for x in rest.split(',') if x.strip())
+            elif kw == 'recv':
+                # recv <channel variable> [label] expr  -- message invariant ASSUMED for every message received on that channel
+                m = re.match(r'\s*(\S+)\s+(.*)$', rest, re.S)
+                lab, r = _label(m.group(2))
+                cur.setdefault('recvs', []).append((m.group(1), lab, parse_expr(r), r))
+                curloop = None
+            elif kw == 'guarded':
+                cur.setdefault('guarded', []).extend(x.strip() for x in rest.split(',') if x.strip())
             elif kw == 'decreases':
                 tgt = curloop if curloop is not None else cur
                 tgt['decreases'] = (parse_expr(rest), rest)
